@@ -145,6 +145,9 @@ func Exec(property string, fn Scenario, t *Tape, env *Env) (res *Result) {
 		defer func() {
 			if p := recover(); p != nil {
 				if _, ok := p.(harnessError); ok {
+					if os.Getenv("VERIF_DEBUG_HARNESS") != "" {
+						fmt.Fprintf(os.Stderr, "harness trouble on tape %v (run index %d)\n", t.Values(), env.RunIndex)
+					}
 					panic(p)
 				}
 				msg := fmt.Sprint(p)
